@@ -11,11 +11,11 @@ import qtypes  # cross-check only: the oracle is the Lean typing model (Linq/Typ
 from cprop import CompilerProp
 
 ID = "C03"
-LEAN_MODULES = ["FaxVerif.C03.Theorems", "FaxVerif.C03.TheoremsTyping", "FaxVerif.C03.TheoremsGen"]
-LEAN_SOURCES = ["FaxVerif/C03", "FaxVerif/Gen", "FaxVerif/Cpp", "FaxVerif/Linq"]
+LEAN_MODULES = ["FaxVerif.C03.Theorems", "FaxVerif.C03.TheoremsTyping", "FaxVerif.C03.TheoremsGen", "FaxVerif.C03.TheoremsLabels", "FaxVerif.C03.TheoremsDeclared", "FaxVerif.C03.TheoremsBook"]
+LEAN_SOURCES = ["FaxVerif/C03", "FaxVerif/Gen", "FaxVerif/Cpp", "FaxVerif/Linq"]  # (C03/Labels.lean, C03/Declared.lean and their theorem files are under FaxVerif/C03)
 DRIVER = cgroup.DRIVER
 TYPING_DRIVER = "FaxVerif/C03/TypingDriver.lean"
-SETUP_MODULES = cgroup.DRIVER_IMPORTS + ["FaxVerif.Linq.Typing"]  # what the two drivers import
+SETUP_MODULES = cgroup.DRIVER_IMPORTS + ["FaxVerif.Linq.Typing", "FaxVerif.C03.Labels", "FaxVerif.C03.Declared"]  # what the two drivers import
 THEOREMS = [
     "FaxVerif.C03.schema_ok_compile",
     "FaxVerif.C03.schema_ok_compileL",
@@ -60,6 +60,24 @@ THEOREMS = [
     "FaxVerif.C03.neg_bool_counterexample",
     "FaxVerif.C03.not_is_bool_of_a_number",
     "FaxVerif.C03.ite_bool_counterexample",
+    # the terminal model (C03/Labels.lean, C03/TheoremsLabels.lean): label arguments, booking, descriptor
+    "FaxVerif.C03.labels_accepted_iff",
+    "FaxVerif.C03.accepted_iff_Accepts",
+    "FaxVerif.C03.bare_label_accepted_iff",
+    "FaxVerif.C03.bare_label_books_one_column",
+    "FaxVerif.C03.bare_label_on_tuple_refused",
+    "FaxVerif.C03.explicit_agrees_with_labeled",
+    "FaxVerif.C03.implicit_is_explicit",
+    "FaxVerif.C03.descriptor_matches_booking",
+    "FaxVerif.C03.descriptor_ignores_file_argument",
+    "FaxVerif.C03.book_refused_iff",
+    "FaxVerif.C03.count_mismatch_refused",
+    # methods declared with a tree type / const-qualified return type (C03/Declared.lean, C03/TheoremsDeclared.lean)
+    "FaxVerif.C03.column_text_of_shape",
+    "FaxVerif.C03.tree_type_wins",
+    "FaxVerif.C03.shape_keeps_element_type",
+    # translator model vs terminal model (C03/TheoremsBook.lean)
+    "FaxVerif.C03.compile_matches_book",
 ]
 RULE = (
     "type-directed random queries (C01 generator) with every terminal form: bare value, tuple, list, dict, and explicit "
@@ -70,9 +88,15 @@ RULE = (
     "return types (const short, unsigned int, const size_t, long, const char, const float) and four user C++ functions with different return "
     "types (float / double): deterministic rule columns and a random stream (60 / 600 cases) use them as scalar, vector and vector-of-vector "
     "columns, several functions side by side; explicit labels and tree names also from pools with ? \" \\ blank / ' (the booked names are "
-    "compared after decoding them as C++ string literals; with a label that is not an identifier only names, tree and descriptor are judged); "
-    "three backends. The expected column names and C++ types of every case come from the Lean typing model (finalColumns / "
-    "finalColumnsLabeled of Linq/Typing.lean, proved sound for the reference semantics); tools/qtypes.py is only cross-checked against it. "
+    "compared after decoding them as C++ string literals, and the whole schema predicate is judged as well: the storage variable is an identifier whatever the label); "
+    "the label ARGUMENT of an explicit ResultTTree in every form: a list, ONE bare string (as many characters as there are columns, more, fewer; on single "
+    "values, 1-tuples, tuples and lists), a literal without a length (number / None) — a deterministic stream of every (terminal form, label argument) pair "
+    "(77 cases), the main stream (by index) and the declared-types stream; explicit labels over list terminals; methods declared with a TREE type (an enum "
+    "written as int, a const enum written as unsigned int) as scalar and vector columns, under First / comparisons, in dict / tuple / list / explicit terminals; "
+    "three backends. The expected column names and C++ types, the booked tree and the descriptor of every case come from the Lean terminal model "
+    "(C03/Labels.lean `book` over the typing model finalColumns / finalColumnsLabeled of Linq/Typing.lean, proved sound for the reference semantics; the "
+    "column type of a declared method from C03/Declared.lean `methodColTy`); tools/qtypes.py is only cross-checked against it; "
+    "implicit_is_explicit and explicit_agrees_with_labeled are also evaluated on every case. "
     "Checked on the implementation's output: decidable SchemaOk (names in order, own storage, declared once with the "
     "expected C++ type, body writes exactly the booked variables, fill names the booked tree) and "
     "the returned descriptor. type_soundness is also evaluated: on every generated case and event the value `denote` yields fits the type "
@@ -83,7 +107,10 @@ TRUSTED_BASE = [
     "C03.type_soundness / C03.columns_sound), given the declared kinds of the synthetic data model read from the metadata the translator receives",
     "tools/cparse.py parse of booking lines and class declarations (tools/props/c03.py reads class members with a multi-word type and, for "
     "labels that are not identifiers, the Branch lines' first argument itself: cparse_class_decl_multiword, booked_names_lenient)",
-    "Linq.declTy: which column type a declared C++ return type text denotes (a top-level const is dropped, other arithmetic types are kept by name)",
+    "Linq.declTy: which column type a declared C++ return type text denotes (a top-level const is dropped, other arithmetic types are kept by name); "
+    "C03.methodColTy: a method declared with a tree_type yields columns of the tree type",
+    "lean/FaxVerif/C03/Labels.lean callResultTTree / implicitCall / book: the terminal as an executable model (a bare string is one label; values of the row "
+    "counted against the labels; <prefix>_tree and ANALYSIS.root), compared with the real pipeline on every case (acceptance, names, types, tree, descriptor)",
 ]
 ASSUMPTIONS = ["the runner delivers the file the job writes under the name ANALYSIS.root (C16 covers the runner)"]
 LEVEL_TEXT = (
@@ -101,7 +128,15 @@ LEVEL_TEXT = (
     "eight conjuncts: names in order, own storage, declared once with the type, written by the body, nothing else written, a fill on the "
     "booked tree), the column types the model declares are the types the independent typing model assigns to the user-level query "
     "(types_agree_with_typing / L / N, with the two exclusions proved necessary by counterexamples: columns of bare objects, and/or on "
-    "non-boolean operands), hence every value the query can evaluate to fits the C++ type booked for its column (column_values_fit / L / N)."
+    "non-boolean operands), hence every value the query can evaluate to fits the C++ type booked for its column (column_values_fit / L / N). "
+    "Terminal model (C03/Labels.lean: _extract_column_names, call_ResultTTree's count check and tree types, get_as_ROOT's wrapping, the descriptor): "
+    "labels_accepted_iff / accepted_iff_Accepts characterise EXACTLY which (row, label argument) pairs are accepted and what is booked — a bare string is one "
+    "label whatever its length (bare_label_accepted_iff, bare_label_books_one_column, bare_label_on_tuple_refused), a literal without a length is refused, "
+    "count_mismatch_refused / book_refused_iff; implicit_is_explicit and explicit_agrees_with_labeled tie it to finalColumns / finalColumnsLabeled; "
+    "descriptor_matches_booking for every query, terminal, label argument, tree and file name (descriptor tree = booked tree = filled tree = the terminal's; "
+    "file = ANALYSIS.root: descriptor_ignores_file_argument; names = the final expression's names in order); compile_matches_book: for every query of "
+    "the one-loop fragment the translator model's package (tree, branch names, declared types) is what the terminal model books and its descriptor names. Declared methods: shape_keeps_element_type, "
+    "tree_type_wins, column_text_of_shape (an enum declared to be written as int is int / std::vector<int> / std::vector<std::vector<int>>)."
 )
 LEVEL_NOTE = (
     "Proved on the translator model (tied by C01's text tie): names, distinct storage, width, tree name, element-level scalar types. Proved on the "
@@ -112,9 +147,10 @@ LEVEL_NOTE = (
     "booked double (neg_bool_/ite_bool_counterexample; `not` of a number is bool in the model and, since fix ea7911a, in the translator: "
     "not_is_bool_of_a_number, exercised by the typing-rules stream); distinct names need distinct dict keys (final_names_distinct_partial). "
     "User C++ functions are typed only when declared to return float or double (denote gives every function a floating value: "
-    "fn_is_declared_floating). A label that is not a C++ identifier makes the storage variable's name (label ++ index) not an identifier "
-    "either: such cases are judged on the decoded names, the tree and the descriptor only (counted in the distribution). "
-    "Known: unique_name = name ++ index is not injective (column x1 at counter 0 vs column x at counter 10)."
+    "fn_is_declared_floating). The terminal model is tied to the real pipeline by comparison on every generated case (acceptance, names, types, tree, "
+    "descriptor), not by a proof about the translator; a dict / set literal as label argument (accepted by the code as the list of its keys) is outside the model. "
+    "Known: unique_name = name ++ index is not injective (column x1 at counter 0 vs column x at counter 10); a vector-of-vectors column of a method declared "
+    "with a tree_type is booked with the declared type instead of the tree type (kept out of the generators, replayed as a known finding)."
 )
 TECHNIQUE = "Lean 4 theorems on the translator model and on a typing model of the query language (type soundness) + decidable schema predicate (Lean) evaluated on the implementation's output against the typing model's columns"
 DESIGN_REF = "DESIGN.md §4 C03"
@@ -133,6 +169,10 @@ USERFNS = [
     {"metadata_type": "add_cpp_function", "name": "xpf", "include_files": [], "arguments": ["d", "i"], "code": ["auto result = d - i;"], "return_type": "float"},
     {"metadata_type": "add_cpp_function", "name": "wpf", "include_files": [], "arguments": ["d"], "code": ["auto result = d * 0.5;"], "return_type": "float"},
 ]
+# methods DECLARED WITH A TREE TYPE (`tree_type`: the type their values are written as in the tree — an enum stored as an integer):
+# name -> (return type relative to the element class, tree type). The column of such a method has the TREE type whatever its
+# shape (scalar / vector); the C03-local declared-method table (`sig`) hands the tree type to the typing model.
+TREE_TYPED = {"ql": ("{et}::Quality", "int"), "cq": ("const {et}::Kind", "unsigned int")}
 _MD = {}
 
 
@@ -143,6 +183,8 @@ def metadata(backend):
             et = qgen.elem_type(backend, c)
             for m, rt in DECLARED.items():
                 mds.append({"metadata_type": "add_method_type_info", "type_string": et, "method_name": m, "return_type": rt})
+            for m, (rt, tt) in TREE_TYPED.items():
+                mds.append({"metadata_type": "add_method_type_info", "type_string": et, "method_name": m, "return_type": rt.format(et=et), "tree_type": tt})
         _MD[backend] = mds + USERFNS
     return _MD[backend]
 
@@ -150,7 +192,7 @@ def metadata(backend):
 def uses_extras(q) -> bool:
     """the query mentions a method / function that only C03's data model declares (tools/qtypes.py does not know them)"""
     if isinstance(q, dict):
-        if (q.get("k") == "meth" and q.get("n") in DECLARED) or (q.get("k") == "fn" and q.get("f") in ("upf", "xpf", "wpf")):
+        if (q.get("k") == "meth" and (q.get("n") in DECLARED or q.get("n") in TREE_TYPED)) or (q.get("k") == "fn" and q.get("f") in ("upf", "xpf", "wpf")):
             return True
         return any(uses_extras(v) for v in q.values())
     if isinstance(q, list):
@@ -173,6 +215,9 @@ def decorate_events(events):
                 i, j = have["i"].get("i", 0), have.get("j", {}).get("i", 0)
                 a += [{"k": "cs", "v": {"i": i}}, {"k": "ui", "v": {"i": j}}, {"k": "sz", "v": {"i": j + 1}}, {"k": "lg", "v": {"i": i * 1000}},
                       {"k": "ch", "v": {"i": 65 + j}}, {"k": "cf", "v": have.get("f", {"d": "0.5"})}]
+            if "i" in have and "ql" not in have:
+                i, j = have["i"].get("i", 0), have.get("j", {}).get("i", 0)
+                a += [{"k": "ql", "v": {"i": j % 3}}, {"k": "cq", "v": {"i": abs(i) % 2}}]
             for kv in a:
                 obj(kv["v"])
     for ev in events:
@@ -184,17 +229,45 @@ def decorate_events(events):
 ODD_LABELS = ['p?t', 'a"b', 'c\\d', 'e f', 'g/h', '??/x', 'q\\?', '"', 'x\\"y', "it's"]
 ODD_TREES = ['tr?ee', 't"q', 'b\\s', 'a b/c', '??/', 'n\\"m', 'w\\?', '"']
 IDENT = re.compile(r"^[A-Za-z_]\w*$")
+BARE_ALPHABET = "ptxyzwnmabcdefgh"  # bare-string label arguments are slices of this (every character an identifier)
+
+
+def label_list(labels):
+    """the labels a ResultTTree label argument denotes: a bare string is ONE label (`_extract_column_names`); a literal
+    without a length ({"scalar": value}: a number, None) denotes none"""
+    if isinstance(labels, dict):
+        return []
+    return [labels] if isinstance(labels, str) else list(labels)
+
+
+def label_arg_json(labels):
+    """the label argument for the Lean terminal model (C03.LabelArg)"""
+    if isinstance(labels, dict):
+        return {"scalar": True}
+    return {"bare": labels} if isinstance(labels, str) else {"list": list(labels)}
+
+
+def label_src(labels) -> str:
+    """the label argument as written in the query text"""
+    return repr(labels["scalar"]) if isinstance(labels, dict) else repr(labels if isinstance(labels, str) else list(labels))
 
 
 class SCase(cgroup.Case):
-    explicit = None  # (names, tree, mismatch intended by the generator) for an explicit ResultTTree
+    explicit = None  # (label argument: list of names | ONE bare string, tree, mismatch intended by the generator) for an explicit ResultTTree
     typing = None  # answers of the Lean typing model: {"default":…, "labeled":…|None, "sound":…}
     expected = None  # (names, C++ types, tree) the Lean model demands; None when it demands a refusal or has no answer
+    descriptor = None  # (treename, filename, tree of the fill) of the Lean terminal model
+
+    def key(self):
+        k = super().key()
+        if self.explicit:
+            k += " |ResultTTree " + label_src(self.explicit[0]) + " " + repr(self.explicit[1])
+        return k
 
     def to_json(self):
         d = super().to_json()
         if self.explicit:
-            d["explicit"] = list(self.explicit)
+            d["explicit"] = [self.explicit[0] if isinstance(self.explicit[0], (str, dict)) else list(self.explicit[0]), self.explicit[1], self.explicit[2]]
         return d
 
 
@@ -204,13 +277,14 @@ def as_scase(c, j=None):
         c.explicit = None
         decorate_events(c.events)
     if j and j.get("explicit"):
-        c.explicit = (list(j["explicit"][0]), j["explicit"][1], bool(j["explicit"][2]))
+        l0 = j["explicit"][0]
+        c.explicit = (l0 if isinstance(l0, (str, dict)) else list(l0), j["explicit"][1], bool(j["explicit"][2]))
     return c
 
 
 def odd_labels(c) -> bool:
     """a label that is not an identifier: the storage variable's name is derived from it (see `judge`)"""
-    return bool(c.explicit) and any(not IDENT.match(n) for n in c.explicit[0])
+    return bool(c.explicit) and any(not IDENT.match(n) for n in label_list(c.explicit[0]))
 
 
 def gen(ctx, i):
@@ -233,9 +307,16 @@ def gen(ctx, i):
             newnames = [ODD_LABELS[(block + 3 * k + kind) % len(ODD_LABELS)] + str(k) for k in range(len(newnames))]
         if block % 3 != 0 and kind in (2, 3):
             tree = ODD_TREES[(block + kind) % len(ODD_TREES)]
-        c.explicit = (newnames, tree, mismatch)
-        # AsROOTTTree understands a sequence of tuples or of single items (README), not of dicts
-        if c.query["f"]["k"] in ("dict", "list"):
+        # ONE bare string as the label argument (the qastle text form allows `ResultTTree(seq, 'pt', 'tree', 'file')`): one
+        # label whatever its length. kind 4: as many CHARACTERS as there are columns; kind 0 in odd blocks: one more.
+        # (chosen by the index; whether it fits is decided by the Lean model: only a single column takes it)
+        labels = newnames
+        if kind == 4 or (kind == 0 and block % 2 == 1):
+            labels = BARE_ALPHABET[block % 5:][: width + (1 if kind == 0 else 0)]
+            mismatch = width != 1
+        c.explicit = (labels, tree, mismatch)
+        # AsROOTTTree understands a sequence of tuples or of single items (README), not of dicts; a list is read like a tuple
+        if c.query["f"]["k"] == "dict" or (c.query["f"]["k"] == "list" and block % 2 == 0):
             c.query = {**c.query, "f": {"k": "tuple", "es": c.query["f"]["es"]}}
     return c
 
@@ -246,7 +327,7 @@ def translate_case(c):
     src = qgen.render_functional(c.query, mds)
     if c.explicit:
         names, tree, _ = c.explicit
-        src = f"ResultTTree({src}, {names!r}, {tree!r}, 'out.root')"
+        src = f"ResultTTree({src}, {label_src(names)}, {tree!r}, 'out.root')"
     c.result = P.translate_functional(c.backend, src)
     if c.result["ok"]:
         c.package = qgen.package_json(c.result)
@@ -314,8 +395,13 @@ def sig(backend):
         for d in mds:
             if d["metadata_type"] != "add_method_type_info":
                 continue
+            # (C03-local declared-method table, lean/FaxVerif/C03/Declared.lean `methodColTy`: a method declared with a
+            # `tree_type` yields columns of THAT type, in every shape; the text is handed over as the metadata has it)
             t = d.get("return_type_collection") or d["return_type"]
-            classes.setdefault(d["type_string"], []).append({"name": d["method_name"], "type": _ty(t, known)})
+            m = {"name": d["method_name"], "type": _ty(t, known)}
+            if d.get("tree_type"):
+                m["tree"] = d["tree_type"]
+            classes.setdefault(d["type_string"], []).append(m)
         fns = [{"name": d["name"], "type": _ty(d["return_type"], known)} for d in mds if d["metadata_type"] == "add_cpp_function"]
         _SIG[backend] = {"colls": colls, "classes": [{"cls": k, "methods": v} for k, v in classes.items()], "fns": fns}
     return _SIG[backend]
@@ -332,17 +418,22 @@ def attach_typing(ctx, cases):
         k0 = len(reqs)
         reqs.append({"op": "columns", "sig": S, "query": q, "labels": None})
         reqs.append({"op": "sound", "sig": S, "query": q, "events": c.events, "coll_types": qgen.coll_types(c.backend)})
+        # the terminal model (C03/Labels.lean `book`): implicit terminal, and the explicit one with the label ARGUMENT as written
+        reqs.append({"op": "book", "sig": S, "query": q, "prefix": PREFIX[c.backend], "terminal": None})
         if c.explicit:
-            reqs.append({"op": "columns", "sig": S, "query": q, "labels": list(c.explicit[0])})
+            ls = c.explicit[0]
+            reqs.append({"op": "columns", "sig": S, "query": q, "labels": label_list(ls)})
+            reqs.append({"op": "book", "sig": S, "query": q, "prefix": PREFIX[c.backend],
+                         "terminal": {"arg": label_arg_json(ls), "tree": c.explicit[1], "file": "out.root"}})
         idx.append((k0, len(reqs)))
     ans = ctx.driver(TYPING_DRIVER, reqs, timeout=900)
     for c, (a, b) in zip(todo, idx):
         r = ans[a:b]
-        c.typing = {"default": r[0], "sound": r[1], "labeled": r[2] if c.explicit else None}
+        c.typing = {"default": r[0], "sound": r[1], "implicit": r[2], "labeled": r[4] if c.explicit else None, "labeled_columns": r[3] if c.explicit else None}
         c.expected = None
         if any("bad" in x for x in r):
             continue  # (the driver's failure is already a broken obligation)
-        ident = {"backend": c.backend, "source": c.source(), "explicit": list(c.explicit) if c.explicit else None}
+        ident = {"backend": c.backend, "source": c.source(), "explicit": SCase.to_json(c).get("explicit")}
         d = c.typing["default"]
         # 1 the model types every generated query
         if "error" in d:
@@ -366,24 +457,35 @@ def attach_typing(ctx, cases):
                 ctx.disagreement("C03 generated event is not an event of the declared data model (eventOk)", {**ident, "event": k}, e, None)
             if e["outcome"].startswith("ILL-TYPED"):
                 ctx.disagreement("C03 type_soundness evaluated: a value denote yields does not fit the type typeOf gives", {**ident, "event": k}, {"type": c.typing["sound"].get("type")}, e["outcome"][:400])
-        # 4 what the tree must look like
-        tree = PREFIX[c.backend] + "_tree"
+        # 4 what the tree must look like: the terminal model's booking and descriptor
+        imp = c.typing["implicit"]
+        # (implicit_is_explicit evaluated: the implicit terminal books finalColumns on <prefix>_tree)
+        if (imp.get("names"), imp.get("types"), imp.get("tree")) != (d["names"], d["types"], PREFIX[c.backend] + "_tree"):
+            ctx.disagreement("C03 terminal model (book, implicit) vs finalColumns", ident, imp, d)
         if c.explicit:
-            lab = c.typing["labeled"]
+            lab, lc = c.typing["labeled"], c.typing["labeled_columns"]
             refused = "error" in lab
+            # (explicit_agrees_with_labeled evaluated: book with the argument as written = finalColumnsLabeled on the labels it denotes)
+            if isinstance(c.explicit[0], dict):
+                if not refused:  # (a literal without a length denotes no labels at all: LabelArg.names = none)
+                    ctx.disagreement("C03 terminal model accepts a label argument that has no length", ident, lab, None)
+            elif refused != ("error" in lc) or (not refused and (lab["names"], lab["types"]) != (lc["names"], lc["types"])):
+                ctx.disagreement("C03 terminal model (book, explicit) vs finalColumnsLabeled", ident, lab, lc)
             if refused != bool(c.explicit[2]):
-                ctx.disagreement("C03 typing model vs the generator: does the label list fit the columns", ident, lab, {"generator_intends_mismatch": c.explicit[2], "width": len(d["names"])})
+                ctx.disagreement("C03 typing model vs the generator: does the label argument fit the columns", ident, lab, {"generator_intends_mismatch": c.explicit[2], "width": len(d["names"])})
             if not refused:
-                c.expected = (lab["names"], lab["types"], c.explicit[1])
+                c.expected = (lab["names"], lab["types"], lab["tree"])
+                c.descriptor = (lab["treename"], lab["filename"], lab["fill"])
         else:
-            c.expected = (d["names"], d["types"], tree)
+            c.expected = (imp["names"], imp["types"], imp["tree"])
+            c.descriptor = (imp["treename"], imp["filename"], imp["fill"])
 
 
 def request(c):
     r = cgroup.request(c, with_query=False)
-    if c.expected is not None and not odd_labels(c):
+    if c.expected is not None:
         names, types, tree = c.expected
-        r["schema"] = {"names": names, "types": types, "fill": tree if c.backend == "atlas" else ""}
+        r["schema"] = {"names": names, "types": types, "fill": (c.descriptor[2] if c.descriptor else tree) if c.backend == "atlas" else ""}
     return r
 
 
@@ -397,7 +499,8 @@ def judge(c):
     r = c.result
     if model_refuses(c):
         if r["ok"]:
-            return {"what": "a column / label count mismatch is accepted", "observed": {"names": c.explicit[0], "model": c.typing["labeled"], "branches": c.package["branches"]}}
+            return {"what": "a column / label count mismatch is accepted (label argument `%s`: %d label(s) for %d column(s))" % (label_src(c.explicit[0]), len(label_list(c.explicit[0])), len(c.typing["default"].get("names") or [])),
+                    "observed": {"label_argument": c.explicit[0], "model": c.typing["labeled"], "branches": c.package["branches"]}}
         return None
     if not r["ok"]:
         return None
@@ -405,19 +508,19 @@ def judge(c):
     if a is None or "bad" in a or c.expected is None:
         return None
     names, types, tree = c.expected
-    if r["treename"] != tree or r["filename"] != "ANALYSIS.root":
-        return {"what": "the returned descriptor does not name the tree / file the job writes", "observed": {"descriptor": [r["treename"], r["filename"]], "expected": [tree, "ANALYSIS.root"]}}
+    dtree, dfile, _fill = c.descriptor or (tree, "ANALYSIS.root", tree)
+    if r["treename"] != dtree or r["filename"] != dfile:
+        return {"what": "the returned descriptor does not name the tree / file the job writes", "observed": {"descriptor": [r["treename"], r["filename"]], "expected": [dtree, dfile]}}
     if c.package["book_trees"] and set(c.package["book_trees"]) != {tree}:
         return {"what": "the booked tree is not the tree named by the query / the descriptor", "observed": {"booked": c.package["book_trees"], "expected": tree}}
     if odd_labels(c):
-        # The storage variable is named after the label (`_p?t2` for the label `p?t`): with a label that is not an identifier
-        # the declaration and the Branch line are not C++ and tools/cparse.py does not read them. What IS decided here: the
-        # booked names, decoded as C++ string literals, are the labels in order (and, above, the tree and the descriptor).
+        # A label that is not an identifier (`p?t`, `a"b`): first the booked names as the Branch lines' own string literals, decoded
+        # (independent of tools/cparse.py's reading of the line), are the labels in order; then — the storage variable is an
+        # identifier whatever the label is (unique_name keeps identifier characters only) — the whole schema predicate below.
         got = booked_names_lenient(r["book"])
         if got != list(names):
             return {"what": "the booked column names (the Branch lines' string literals, decoded) are not the labels given to ResultTTree, in order",
                     "observed": {"labels": names, "decoded": got, "book": r["book"]}}
-        return None
     if a.get("schema_ok") is not True:
         return {"what": "the output tree's schema differs from the query's final shape (names in order / own storage / declared type / variables written / fill target)",
                 "observed": {"expected_names": names, "expected_types": types, "branches": c.package["branches"], "class_vars": c.package["class_vars"], "body": r["query"]}}
@@ -437,6 +540,35 @@ class Prop(CompilerProp):
         for c, a in zip(acc, ans):
             c.answer = a
 
+    def known(self, ctx):
+        """as CompilerProp.known, with the explicit terminal of the stored case"""
+        for e in ctx.known_entries("known") + ctx.known_entries("fixed"):
+            if "query" not in e.get("input", {}):
+                continue
+            c = as_scase(cgroup.Case.from_json(e["input"]), e["input"])
+            self.evaluate(ctx, [c])
+            hit = self.judge(c)
+            if hit is not None and hit.get("kind") != "broken":
+                key = e["key"] if e["status"] == "known" else "regressed:" + e["key"]
+                ctx.violation(key=key, what=e["what"], case=c.to_json(), observed=hit.get("observed"), how=self.how)
+
+    def run(self, ctx):
+        """as CompilerProp.run; the corpus cases keep their explicit terminal (label argument, tree)"""
+        from vlib import corpus_cases
+
+        self.known(ctx)
+        corpus = [as_scase(cgroup.Case.from_json(j), j) for j in corpus_cases(self.pid)]
+        if corpus:
+            self.stream(ctx, corpus, "corpus")
+        n = self.n_quick if ctx.tier == "quick" else self.n_thorough
+        i = 0
+        while i < n:
+            ctx.check_time()
+            m = min(400, n - i)
+            self.stream(ctx, [self.gen(ctx, i + k) for k in range(m)], "generated")
+            i += m
+        ctx.extra_cov["exhaustive"] = False
+
     def replay(self, ctx, rep) -> int:
         c = cgroup.Case.from_json(rep["case"])
         as_scase(c, rep["case"])
@@ -452,9 +584,19 @@ class Prop(CompilerProp):
 
 def after(ctx, c):
     if odd_labels(c) and c.result and c.result.get("ok"):
-        ctx.count("odd-labels:judged on the decoded Branch literals, tree and descriptor (storage variable named after the label is not an identifier)")
+        ctx.count("odd-labels:labels that are not identifiers (judged on the decoded Branch literals AND the schema predicate)")
     if c.explicit and not IDENT.match(c.explicit[1].replace("/", "_")):
         ctx.count("odd-tree-name")
+    if c.explicit:
+        ls, w = c.explicit[0], len((c.typing or {}).get("default", {}).get("names") or [])
+        if isinstance(ls, dict):
+            ctx.count("label-arg:a literal without a length (number / None)")
+        elif isinstance(ls, str):
+            ctx.count("label-arg:bare string, " + ("as many characters as columns" if len(ls) == w else "other length") + (", one column" if w == 1 else ", several columns"))
+        else:
+            ctx.count("label-arg:list")
+        if c.query["f"]["k"] == "list":
+            ctx.count("label-arg:over a list terminal")
     ctx.count("terminal:" + ("explicit-mismatch" if c.explicit and c.explicit[2] else "explicit" if c.explicit else c.query["f"]["k"] if c.query["f"]["k"] in ("tuple", "list", "dict") else "bare"))
     for t in (c.expected or ([], [], ""))[1]:
         ctx.count("column-type:" + t)
@@ -559,6 +701,17 @@ def rule_exprs():
         ("+:const float,int", B("+", J("cf"), J("i"))),
         ("First:size_t", T("First", kids(K("sz")))),
         ("Count:where char", T("Count", WH(J("kids"), "k", C(">", K("ch"), I(65))))),
+        # methods declared with a TREE type (an enum written as an integer): scalar, vector, First, compared
+        ("tree:enum as int", J("ql")),
+        ("tree:const enum as unsigned int", J("cq")),
+        ("cmp:enum,int", C("==", J("ql"), I(1))),
+        ("not:enum", {"k": "not", "a": J("cq")}),
+        ("First:enum as int", T("First", kids(K("ql")))),
+        ("First:const enum", T("First", kids(K("cq")))),
+        ("if:enum cond", IF(C(">", J("ql"), I(1)), J("d"), J("f"))),
+        ("seq:enum as int", kids(K("ql"))),
+        ("seq:const enum as unsigned int", kids(K("cq"))),
+        ("seq:enum==", kids(C("==", K("ql"), I(2)))),
         # user C++ functions: every call has its OWN function's declared return type
         ("userfn:float", {"k": "fn", "f": "wpf", "args": [J("d")]}),
         ("userfn:double1", {"k": "fn", "f": "upf", "args": [J("g")]}),
@@ -652,8 +805,20 @@ def gen_declared(rng, i):
     def num(v):  # a double-ish argument
         return rng.choice([M(V(v), "d"), M(V(v), "g"), M(V(v), "f"), M(V(v), "cf"), {"k": "bin", "op": "*", "a": M(V(v), "d"), "b": I(2)}])
 
-    def atom(v):
-        k = rng.choice(["decl"] * 4 + ["fn"] * 4 + ["fn2", "cmp", "not", "if", "first", "count", "plain"])
+    def atom(v, nested=False):
+        """`nested`: the column is a vector of vectors of this (a tree-typed method is kept out of there: listed known finding)"""
+        k = rng.choice(["decl"] * 4 + ["tree"] * 3 + ["fn"] * 4 + ["fn2", "cmp", "not", "if", "first", "count", "plain"])
+        if k == "tree":
+            if nested:
+                k = "decl"
+            else:
+                t = rng.choice(["m", "m", "m", "cmp", "first"])
+                m = M(V(v), rng.choice(list(TREE_TYPED)))
+                if t == "cmp":
+                    return {"k": "cmp", "op": rng.choice(["==", "!=", ">"]), "a": m, "b": I(rng.choice([0, 1, 2]))}
+                if t == "first":
+                    return {"k": "First", "s": {"k": "Select", "s": M(V(v), "kids"), "x": v + "k", "f": M(V(v + "k"), rng.choice(list(TREE_TYPED)))}}
+                return m
         if k == "decl":
             return M(V(v), rng.choice(list(DECLARED)))
         if k == "fn":
@@ -688,12 +853,14 @@ def gen_declared(rng, i):
             if r < 0.6:
                 cols.append({"k": "Select", "s": coll, "x": "j", "f": atom("j")})
             elif r < 0.9:
-                cols.append({"k": "Select", "s": coll, "x": "j", "f": {"k": "Select", "s": M(V("j"), "kids"), "x": "k", "f": atom("k")}})
+                cols.append({"k": "Select", "s": coll, "x": "j", "f": {"k": "Select", "s": M(V("j"), "kids"), "x": "k", "f": atom("k", nested=True)}})
             else:
                 cols.append({"k": "Count", "s": coll})
         src, x, form = {"k": "ds"}, "e", "select"
-    shape = rng.choice(["bare", "tuple", "list", "dict", "explicit", "explicit", "explicit-odd", "explicit-odd", "mismatch"]) if n > 1 else rng.choice(["bare", "bare", "tuple", "dict", "explicit", "explicit-odd", "mismatch"])
-    if shape == "bare":
+    shape = rng.choice(["bare", "tuple", "list", "dict", "explicit", "explicit", "explicit-odd", "explicit-odd", "mismatch", "bare-label", "bare-label"]) if n > 1 else rng.choice(["bare", "bare", "tuple", "dict", "explicit", "explicit-odd", "mismatch", "bare-label", "bare-label"])
+    as_list = shape != "list" and rng.random() < 0.3  # (explicit labels over a LIST terminal as well)
+    single = shape == "bare-label" and rng.random() < 0.4  # a bare-string label on a single value
+    if shape == "bare" or single:
         cols = cols[:1]
         body, names = cols[0], ["col1"]
     elif shape == "dict":
@@ -702,11 +869,17 @@ def gen_declared(rng, i):
     elif shape == "list":
         body, names = {"k": "list", "es": cols}, [f"col{k}" for k in range(len(cols))]
     else:
-        body, names = {"k": "tuple", "es": cols}, [f"col{k}" for k in range(len(cols))]
+        body, names = {"k": "list" if as_list else "tuple", "es": cols}, [f"col{k}" for k in range(len(cols))]
     q = {"k": "Select", "s": src, "x": x, "f": body}
     c = cgroup.Case(backend, q, names, form, [qgen.gen_event(rng, backend, {bank: cname}, empty_bias=0.1)])
     c.family = "declared-types"
     as_scase(c)
+    if shape == "bare-label":
+        # ONE bare string: as many characters as columns (two times out of three), else one more / one fewer (not none)
+        k = len(cols) if rng.random() < 0.67 else max(1, len(cols) + rng.choice([1, -1]))
+        start = rng.randrange(5)
+        tree = rng.choice(ODD_TREES if rng.random() < 0.3 else ["mytree", "t", "trees/nominal", "a b"])
+        c.explicit = (BARE_ALPHABET[start:start + k], tree, len(cols) != 1)
     if shape.startswith("explicit") or shape == "mismatch":
         pool = ODD_LABELS if shape == "explicit-odd" or (shape == "mismatch" and rng.random() < 0.5) else ["pt", "eta", "n", "jetPt", "x"]
         labels = [rng.choice(pool) + str(k) for k in range(len(cols))]
@@ -715,6 +888,65 @@ def gen_declared(rng, i):
         tree = rng.choice(ODD_TREES if rng.random() < 0.6 else ["mytree", "t", "trees/nominal", "a b"])
         c.explicit = (labels, tree, shape == "mismatch")
     return c
+
+
+# ---------------------------------------------------------------- every (terminal form, label argument) pair (deterministic)
+
+
+def label_cases():
+    """Explicit ResultTTree over every terminal form (single scalar / single vector / element-level single value, 1-tuple, tuples and
+    lists of 2..4 columns, a dict) with every form of label argument: ONE bare string with as many characters as there are columns,
+    with one more, with a single character; a list with exactly / one more / one fewer labels. What is accepted and what is booked
+    is decided by the Lean model (finalColumnsLabeled on the labels the argument denotes: a bare string is one label).
+    Deterministic: independent of the seed."""
+    import random
+
+    rng = random.Random("C03 label forms")
+    V = lambda n: {"k": "var", "n": n}
+    M = lambda o, n: {"k": "meth", "o": o, "n": n}
+    J = lambda n: M(V("j"), n)
+    coll = {"k": "coll", "e": V("e"), "c": "As", "bank": "ba"}
+    vec = lambda m: {"k": "Select", "s": coll, "x": "j", "f": J(m)}
+    count = {"k": "Count", "s": coll}
+    ev = lambda body: ({"k": "Select", "s": {"k": "ds"}, "x": "e", "f": body}, "select")
+    el = lambda body: ({"k": "Select", "s": {"k": "SelectMany", "s": {"k": "ds"}, "x": "e", "f": coll}, "x": "j", "f": body}, "selectmany")
+    T = lambda *es: {"k": "tuple", "es": list(es)}
+    L = lambda *es: {"k": "list", "es": list(es)}
+    terminals = [
+        ("single scalar", ev(count), 1),
+        ("single vector", ev(vec("d")), 1),
+        ("single value per element", el(J("i")), 1),
+        ("single tree-typed vector", ev(vec("ql")), 1),
+        ("1-tuple", ev(T(count)), 1),
+        ("2-tuple", ev(T(count, vec("d"))), 2),
+        ("2-list", ev(L(vec("ql"), vec("cs"))), 2),
+        ("3-list per element", el(L(J("i"), J("f"), J("b"))), 3),
+        ("3-tuple", ev(T(count, vec("f"), vec("cq"))), 3),
+        ("4-tuple per element", el(T(J("i"), J("d"), J("ql"), J("ui"))), 4),
+        ("dict", ev({"k": "dict", "ks": ["a", "b"], "es": [count, vec("d")]}), 2),
+    ]
+    cases = []
+    for ti, (tname, (q, form), w) in enumerate(terminals):
+        args = [
+            ("bare:as many characters as columns", BARE_ALPHABET[ti % 5:][:w]),
+            ("bare:one more character", BARE_ALPHABET[(ti + 1) % 5:][: w + 1]),
+            ("bare:" + ("one character" if w > 1 else "three characters"), "q" if w > 1 else "eta"),
+            ("list:exact", [f"{BARE_ALPHABET[(ti + k) % 16]}{k}" for k in range(w)]),
+            ("list:one more", [f"n{k}" for k in range(w + 1)]),
+            ("list:one fewer", [f"m{k}" for k in range(w - 1)]),
+            ("no length:" + ("number" if ti % 2 else "None"), {"scalar": w if ti % 2 else None}),
+        ]
+        for ai, (aname, arg) in enumerate(args):
+            b = P.BACKENDS[(ti + ai) % 3]
+            names = ["col1"] if q["f"]["k"] not in ("tuple", "list", "dict") else (q["f"]["ks"] if q["f"]["k"] == "dict" else [f"col{k}" for k in range(w)])
+            c = cgroup.Case(b, q, names, form, [qgen.gen_event(rng, b, {"ba": "As"}, empty_bias=0.0)])
+            c.family = "label-forms"
+            as_scase(c)
+            # what the generator intends (the Lean model decides): a dict takes no labels; otherwise the NUMBER OF LABELS must be the width
+            c.explicit = (arg, ["t", "mytree", "trees/nominal"][(ti + ai) % 3], tname == "dict" or isinstance(arg, dict) or len(label_list(arg)) != w)
+            c.label_form = (tname, aname)
+            cases.append(c)
+    return cases
 
 
 _P = Prop(ID, gen, judge, 240, 2400, with_query=False, after=after, nontrivial=nontrivial,
@@ -730,6 +962,10 @@ def run(ctx):
         for r in c.rules:
             ctx.count("rule:" + r.split(":")[0])
     _P.stream(ctx, cases, "typing-rules")
+    lcases = label_cases()
+    for c in lcases:
+        ctx.count("label-form:" + c.label_form[0] + " / " + c.label_form[1])
+    _P.stream(ctx, lcases, "label-forms")
     import random
 
     rng = random.Random(f"C03 declared types:{ctx.seed}")  # (its own generator: the main stream's draws stay what they are)
